@@ -11,10 +11,25 @@ Tie: correspondence (C).
 * Monte-Carlo: random integrands of the formula family (`IExpr`) evaluated by the real engine
   (`MonteCarlo(e).get_value_c`, `BIOGEME.simulate`) vs the model (`Integrals.monteCarlo`) and vs an
   independent mean computed in Python from the recorded series;
-* seeds: `BIOGEME(seed=s)` twice gives bit-identical results;
+  the Monte-Carlo formula sits alone, next to a closed-form log likelihood (and a weight), or is
+  the log likelihood itself;
+* seeds: two `BIOGEME` objects built with the same non-zero seed (keyword or biogeme.toml) give
+  bit-identical results (simulated values of every formula, log likelihood, draw table) whatever
+  was drawn from the global generator in between, for every layout of the formulas (Monte-Carlo
+  operator in the log likelihood, in another formula next to a closed-form log likelihood / weight,
+  pure simulation) and 1-3 draw variables of random native types; the generator state after
+  `BIOGEME.__init__` and the first series are compared with `Integrals.seedPolicy`;
 * `Integrate` over a `RandomVariable` against the Gaussian closed-form family proved in
   Props/C10.lean (tolerance 1e-6); `Derive` against the model's symbolic derivative and against
-  central finite differences of the real value of its argument.
+  central finite differences of the real value of its argument;
+* `Derive` in context: free and fixed parameters, a random variable under `Integrate`, 0-3 draw
+  variables and 2-4 database columns (in adversarial order) in one formula, derivative w.r.t. a
+  free parameter, a fixed parameter, a database column or the random variable, as
+  `Derive(MonteCarlo(e))`, `MonteCarlo(Derive(e))` or plain; oracle = forward-mode derivative of an
+  independent evaluator averaged over the variables' own series (+ proved closed forms for the
+  `Integrate` term) and finite differences of the real value; the index written by
+  `Derive.get_signature` and the value are compared with `Integrals.literalIndex` /
+  `Integrals.deriveNamed`.
 """
 
 from __future__ import annotations
@@ -34,10 +49,10 @@ MANIFEST = dict(
     'dispatch native -> user -> error, reserved names refused and no shadowing afterwards, wrong shape / unknown type refused at the first offending variable (generator_dispatch, '
     'reserved_refused, wrong_shape_refused, unknown_type_refused); the Monte-Carlo loop is the arithmetic mean over r of the integrand with every draw variable replaced by its own '
     'series\' r-th draw, end to end on the table produced by generate_draws (mc_mean, mc_own_series, mc_denotes_mean); the symbolic derivative of the formula family is the derivative, w.r.t. parameters and variables (derive_is_diff, derive_var_is_diff: '
-    'HasDerivAt); a non-zero seed determines the generator state (seeded_deterministic); Gaussian closed forms over R from Mathlib: int phi = 1, int x phi = 0, int x^2 phi = 1, '
+    'HasDerivAt), also of a simulated quantity: the Monte-Carlo mean of the symbolic derivative is the derivative of the Monte-Carlo mean (derive_mc_is_diff, derive_mc_var_is_diff); the index Derive.get_signature sends to the engine denotes the named literal and no other in the global numbering free / fixed / random variables / draws / columns, a column being numbered after all four other groups (derive_index_names_literal, derive_index_variable), and the engine\'s derivative w.r.t. that literal id is the symbolic derivative w.r.t. the named column / parameter (derive_named_var_is_diff, derive_named_beta_is_diff); a non-zero seed determines the generator state (seeded_deterministic); Gaussian closed forms over R from Mathlib: int phi = 1, int x phi = 0, int x^2 phi = 1, '
     'int phi e^{ax} = e^{a^2/2}, int (c0+c1 x+c2 x^2) phi e^{ax} = e^{a^2/2}(c0+c1 a+c2(1+a^2)) (integral_phi, integral_x_phi, integral_x2_phi, integral_phi_exp, integral_x_phi_exp, integral_x2_phi_exp, integral_poly_phi_exp). Tie: real Database/BIOGEME/expressions on generated cases.',
     design='DESIGN.md §5 C10',
-    technique='Lean 4 theorems (core + Mathlib calculus / Gaussian measure) over an executable model of the draw table, dispatch, Monte-Carlo loop and derivative + differential correspondence',
+    technique='Lean 4 theorems (core + Mathlib calculus / Gaussian measure) over an executable model of the draw table, dispatch, Monte-Carlo loop, literal numbering and derivative + differential correspondence',
     note='PARTIAL: the quadrature error of Integrate for general integrands is not proved (closed-form Gaussian family used as oracle, tolerance 1e-6); the distribution of native draws is C11\'s subject; engine operators modelled, not verified.',
 )
 
@@ -49,7 +64,9 @@ TRUSTED = [
 ASSUMPTIONS = ['generators are deterministic functions of (sample size, number of draws) or observed through the recording wrapper']
 RULE = (
     'N in 1..5 x R in {1,2,7,50} x 1-3 draw variables of different types (user G0-G2, native Halton, native random through the recorder) x integrand trees of depth <= 4; '
-    'non-trivial = R >= 2 and (>= 2 draw variables or a non-constant integrand)'
+    'non-trivial = R >= 2 and (>= 2 draw variables or a non-constant integrand); seeds: layout of the formulas (Monte-Carlo formula alone / next to a closed-form '
+    'log likelihood (+ weight) / as the log likelihood) x seed by keyword or file x 1-3 draw variables of random native types; Derive in context: 2-3 parameters (free / fixed) x '
+    '0-1 random variable x 0-3 draw variables x 2-4 database columns x w.r.t. free parameter / fixed parameter / column / random variable x Derive(MonteCarlo) / MonteCarlo(Derive) / plain'
 )
 
 MATCHERS = {}
@@ -364,7 +381,9 @@ def tree_depth(t):
     return 1 + max([tree_depth(t[c]) for c in ('a', 'b') if c in t] or [0])
 
 
-def build(t, types):
+def build(t, types, spec=None):
+    """`spec` (optional): names / values / status of the parameters by position and names of the data
+    columns by position ({'bnames', 'bvals', 'bstatus', 'vnames'})"""
     from biogeme.expressions import Beta, Variable, Numeric, exp, bioDraws
 
     k = t['k']
@@ -374,14 +393,16 @@ def build(t, types):
     if k == 'nat':
         return Numeric(t['v'])
     if k == 'beta':
+        if spec:
+            return Beta(spec['bnames'][t['i']], spec['bvals'][t['i']], None, None, spec['bstatus'][t['i']])
         return Beta(BETA_NAMES[t['i']], 0.0, None, None, 0)
     if k == 'var':
-        return Variable(COLS[t['j']])
+        return Variable(spec['vnames'][t['j']] if spec else COLS[t['j']])
     if k == 'draw':
         return bioDraws(t['n'], types[t['n']])
     if k == 'exp':
-        return exp(build(t['a'], types))
-    a, b = build(t['a'], types), build(t['b'], types)
+        return exp(build(t['a'], types, spec))
+    a, b = build(t['a'], types, spec), build(t['b'], types, spec)
     return a + b if k == 'add' else a - b if k == 'sub' else a * b
 
 
@@ -430,7 +451,35 @@ def gen_mc_case(rng, allow_random=True):
         'betas': [rng.randint(-8, 8) / 8.0, rng.randint(-8, 8) / 16.0],
         'rows': [[rng.randint(-8, 8) / 4.0, rng.randint(-4, 4) / 2.0] for _ in range(N)],
         'via': rng.choice(['get_value_c', 'get_value_c', 'biogeme']),
+        # (via biogeme) where the Monte-Carlo formula sits among the formulas of the BIOGEME object, and the seed
+        'layout': rng.choice(LAYOUTS), 'll_key': rng.choice(['log_like', 'loglike']), 'seed': rng.choice([0, 0, rng.randint(1, 10**6)]),
     }
+
+
+LAYOUTS = ['only', 'next-to-ll', 'next-to-ll-weight', 'is-ll', 'single']
+
+
+def closed_ll():
+    """a closed-form log likelihood (no draws): -(b2 * X - Y)^2"""
+    from biogeme.expressions import Beta, Variable
+
+    u = Beta(BETA_NAMES[0], 0.0, None, None, 0) * Variable('X') - Variable('Y')
+    return -(u * u)
+
+
+def formulas_for(layout, expr, ll_key='log_like'):
+    """the formulas given to BIOGEME and the key under which `expr` is simulated"""
+    from biogeme.expressions import Numeric
+
+    if layout == 'single':
+        return expr, 'log_like'
+    if layout == 'is-ll':
+        return {ll_key: expr}, ll_key
+    if layout == 'next-to-ll':
+        return {ll_key: closed_ll(), 'v': expr}, 'v'
+    if layout == 'next-to-ll-weight':
+        return {'v': expr, 'weight': Numeric(1.0), ll_key: closed_ll()}, 'v'
+    return {'v': expr}, 'v'
 
 
 def check_mc(ctx, res, case):
@@ -451,15 +500,24 @@ def check_mc(ctx, res, case):
                 vals = [float(v) for v in expr.get_value_c(database=d, betas=bdict, number_of_draws=R, prepare_ids=True)]
             else:
                 with core.scratch(TOML):
-                    B = bio.BIOGEME(d, {'v': expr}, number_of_draws=R)
+                    formulas, key = formulas_for(case.get('layout', 'only'), expr, case.get('ll_key', 'log_like'))
+                    B = bio.BIOGEME(d, formulas, number_of_draws=R, seed=case.get('seed', 0))
                     sim = B.simulate({n: bdict[n] for n in B.free_beta_names})
-                    vals = [float(v) for v in sim['v'].values]
+                    vals = [float(v) for v in sim[key].values]
         except Exception as e:  # noqa: BLE001
             res.violate(f'Monte-Carlo evaluation raises {type(e).__name__}: {str(e)[:150]}', case, core.exc_kind(e), 'values', where='MonteCarlo')
             return
+    judge_mc(ctx, res, case, vals, rec)
+
+
+def judge_mc(ctx, res, case, vals, rec, where='MonteCarlo'):
+    """oracle of the first sentence of the property on the values the real code returned + the model"""
+    N, R, types, tree = case['N'], case['R'], case['types'], case['tree']
+    declared = sorted(types)
+    rnd = sorted({t for t in types.values() if t in RND_NATIVE})
     nontrivial = R >= 2 and (len(types) >= 2 or tree_depth(tree) >= 2)
     res.count({'mc': case}, nontrivial=nontrivial)
-    res.tally(f'mc:{case["via"]}')
+    res.tally(f'mc:{case["via"]}' + (':' + case.get('layout', 'only') if case['via'] == 'biogeme' else ''))
     res.tally(f'mc:R={R}')
     res.tally(f'mc:vars={len(types)}')
     n_rounds = max([len(rec.rounds(t)) // max(1, sum(1 for n in types if types[n] == t)) for t in rnd] or [1])
@@ -484,7 +542,7 @@ def check_mc(ctx, res, case):
     if not hit:
         res.violate(
             'Monte-Carlo value = arithmetic mean over the draws of the integrand, every draw variable replaced by its own series', case, vals,
-            expected_by_round[0] if expected_by_round else None, where='MonteCarlo')
+            expected_by_round[0] if expected_by_round else None, where=where)
         return
     table = tables[hit[0]]
     req = {
@@ -503,33 +561,128 @@ def check_mc(ctx, res, case):
 # ----------------------------------------------------------------------------- C. seeds
 
 
-def check_seed(ctx, res, rng):
-    import biogeme.biogeme as bio
-    from biogeme.expressions import MonteCarlo, log, exp, Beta, Variable, bioDraws
-
+def gen_seed_case(rng):
     N = rng.randint(1, 4)
     R = rng.choice([2, 7, 50])
-    seed = rng.randint(1, 10**6)
-    ty = rng.choice(RND_NATIVE)
-    R = fix_R(R, [ty])
-    rows = [[rng.randint(-8, 8) / 4.0, 0.0] for _ in range(N)]
-    case = {'N': N, 'R': R, 'seed': seed, 'type': ty, 'rows': rows, 'via': rng.choice(['kwarg', 'toml'])}
+    K = rng.choice([1, 1, 2, 3])
+    names = rng.sample(NAME_POOL, K)
+    # at least one random native type; the others random native (mostly), user or deterministic native
+    types = {n: rng.choice(RND_NATIVE + RND_NATIVE + USER + DET_NATIVE) for n in names}
+    types[rng.choice(names)] = rng.choice(RND_NATIVE)
+    tree = gen_tree(rng, rng.randint(1, 3), names)
+    used = tree_draws(tree)
+    for n in names:
+        if n not in used:
+            tree = {'k': rng.choice(['add', 'sub']), 'a': tree, 'b': {'k': 'mul', 'a': {'k': 'draw', 'n': n}, 'b': lit(rng, [(5, 1), (25, 2), (-15, 1)])}}
+    return {
+        'N': N, 'R': fix_R(R, types.values()), 'seed': rng.randint(1, 10**6), 'types': types, 'tree': tree,
+        'betas': [rng.randint(-8, 8) / 8.0, rng.randint(-8, 8) / 16.0],
+        'rows': [[rng.randint(-8, 8) / 4.0, rng.randint(-4, 4) / 2.0] for _ in range(N)],
+        'via': 'biogeme', 'seed_via': rng.choice(['kwarg', 'toml']), 'layout': rng.choice(LAYOUTS), 'll_key': rng.choice(['log_like', 'loglike']),
+        # how many numbers something else takes from the global generator between the two runs
+        'between': rng.choice([0, 1, 17, 400]),
+    }
+
+
+def run_seeded(case, s):
+    """one complete run: a new database and a new BIOGEME object with seed `s`; everything it returns"""
+    import biogeme.biogeme as bio
+    from biogeme.expressions import MonteCarlo
+
+    N, R, types = case['N'], case['R'], case['types']
+    toml = TOML.replace('seed = 0', f'seed = {s}') if case['seed_via'] == 'toml' else TOML
+    rnd = sorted({t for t in types.values() if t in RND_NATIVE})
+    bdict = beta_vector(case['betas'])
+    with core.scratch(toml):
+        d = make_db(N, case['rows'])
+        d.set_random_number_generators({f'G{g}': (user_gen(g), f'user {g}') for g in range(3)})
+        formulas, key = formulas_for(case['layout'], MonteCarlo(build(case['tree'], types)), case['ll_key'])
+        with Recorder(rnd) as rec:
+            B = bio.BIOGEME(d, formulas, number_of_draws=R, seed=s) if case['seed_via'] == 'kwarg' else bio.BIOGEME(d, formulas, number_of_draws=R)
+            free = list(B.free_beta_names)
+            sim = B.simulate({n: bdict[n] for n in free})
+            out = {'simulate': {c: [f2b(float(v)) for v in sim[c].values] for c in sorted(sim.columns)}}
+            if case['layout'] != 'only':
+                out['calculate_likelihood'] = f2b(float(B.calculate_likelihood([bdict[n] for n in free], scaled=False)))
+            out['theDraws'] = [f2b(float(v)) for v in np.asarray(d.theDraws, dtype=float).reshape(-1)]
+    return out, [float(v) for v in sim[key].values], rec
+
+
+def check_seed(ctx, res, case):
+    """two runs with the same non-zero seed are identical, whatever happened to the global generator in between"""
     iso_f.note(case, 'BIOGEME seed')
-    vals = []
-    for s in (seed, seed, seed + 1):
-        toml = TOML.replace('seed = 0', f'seed = {s}') if case['via'] == 'toml' else TOML
-        with core.scratch(toml):
-            d = make_db(N, rows)
-            b = Beta('b', 0.0, None, None, 0)
-            f = log(MonteCarlo(exp(b * bioDraws('n', ty) * Variable('X') * 0.25)))
-            B = bio.BIOGEME(d, f, number_of_draws=R, seed=s) if case['via'] == 'kwarg' else bio.BIOGEME(d, f, number_of_draws=R)
-            vals.append([float(B.calculate_likelihood([0.5], scaled=False)), [float(v) for v in B.simulate({'b': 0.5})['log_like'].values]])
-    res.count({'seed': case}, nontrivial=True)
-    res.tally('seed:' + ty)
-    if [f2b(vals[0][0])] + [f2b(v) for v in vals[0][1]] != [f2b(vals[1][0])] + [f2b(v) for v in vals[1][1]]:
-        res.violate('with a non-zero seed the results are reproducible (bit for bit)', case, vals[1], vals[0], where='BIOGEME seed')
-    if vals[2] == vals[0] and any(r[0] != 0.0 for r in rows):
-        res.notes.append(f'seed {seed} and {seed + 1} give identical results for {ty} (possible, but unexpected)')
+    seed = case['seed']
+    a, vals_a, rec_a = run_seeded(case, seed)
+    if case['between']:
+        np.random.uniform(size=case['between'])
+    b, vals_b, rec_b = run_seeded(case, seed)
+    res.tally('seed:' + case['layout'])
+    for t in sorted(set(case['types'].values())):
+        if t in RND_NATIVE:
+            res.tally('seed:' + t)
+    for what in a:
+        if a[what] != b.get(what):
+            unb = (lambda x: {k: [b2f(v) for v in vs] for k, vs in x.items()} if isinstance(x, dict) else [b2f(v) for v in x] if isinstance(x, list) else b2f(x))
+            res.violate(f'with a non-zero seed the results are reproducible (bit for bit): {what} of two runs with seed {seed}', case, unb(b.get(what)), unb(a[what]), where='BIOGEME seed')
+            return
+    # the value itself (first sentence of the property), on the series recorded during the first run
+    judge_mc(ctx, res, case, vals_a, rec_a, where='BIOGEME seed')
+    # model: the generator state after the constructor's first statement is a function of the seed alone, so the first
+    # series asked from a random native generator is what that generator returns from the freshly seeded state
+    first = rec_a.calls[0] if rec_a.calls else None
+    if first is not None:
+        ty, n_, r_, table = first
+        np.random.seed(seed)
+        ref = np.asarray(rec_a.saved[ty].generator(n_, r_), dtype=float).tolist()
+
+        def cb(ans):
+            if ans[0].get('state') != f'fresh:{seed}':
+                res.diverge('Integrals.seedPolicy: a non-zero seed re-initialises the generator', case, ans[0], f'fresh:{seed}')
+            elif ref != table:
+                res.diverge(f'first series of type {ty} vs the generator run from the state Integrals.seedPolicy gives (fresh {seed})', case, ref, table)
+
+        ctx.batch.add_many([{'op': 'seed_policy', 'seed': seed}], cb)
+
+
+def rng_state():
+    st = np.random.get_state()
+    return [st[0], [int(v) for v in st[1]], int(st[2]), int(st[3]), float(st[4])]
+
+
+def check_seed_state(ctx, res, rng):
+    """`BIOGEME.__init__` on formulas without draws: the global generator is re-initialised iff the seed is not 0"""
+    import biogeme.biogeme as bio
+
+    N = rng.randint(1, 3)
+    seed = rng.choice([0, rng.randint(1, 10**6), rng.randint(1, 10**6)])
+    case = {'N': N, 'seed': seed, 'seed_via': rng.choice(['kwarg', 'toml']), 'layout': rng.choice(['single', 'is-ll', 'next-to-ll']),
+            'rows': [[rng.randint(-8, 8) / 4.0, rng.randint(-4, 4) / 2.0] for _ in range(N)], 'before': rng.choice([0, 3, 50])}
+    iso_f.note(case, 'BIOGEME seed (state)')
+    np.random.seed(rng.randint(1, 10**6))
+    if case['before']:
+        np.random.uniform(size=case['before'])
+    st0 = rng_state()
+    toml = TOML.replace('seed = 0', f'seed = {seed}') if case['seed_via'] == 'toml' else TOML
+    with core.scratch(toml):
+        d = make_db(N, case['rows'])
+        formulas, _ = formulas_for(case['layout'], closed_ll())
+        if case['layout'] == 'next-to-ll':
+            formulas['v'] = closed_ll() * 2
+        B = bio.BIOGEME(d, formulas, seed=seed) if case['seed_via'] == 'kwarg' else bio.BIOGEME(d, formulas)
+        st1 = rng_state()
+    res.count({'seed-state': case}, nontrivial=True)
+    res.tally('seed-state:' + ('0' if seed == 0 else 'non-zero'))
+    fresh = None
+    if seed:
+        np.random.seed(seed)
+        fresh = rng_state()
+
+    def cb(ans):
+        want = {'current': st0, f'fresh:{seed}': fresh}.get(ans[0].get('state'))
+        if want is None or want != st1:
+            res.diverge('generator state after BIOGEME.__init__ vs Integrals.seedPolicy', case, ans[0], 'fresh' if st1 == fresh else 'current' if st1 == st0 else 'another state')
+
+    ctx.batch.add_many([{'op': 'seed_policy', 'seed': seed}], cb)
 
 
 # ----------------------------------------------------------------------------- D. numerical integration
@@ -636,6 +789,224 @@ def check_derive(ctx, res, rng):
     ctx.batch.add_many([req], cb)
 
 
+# ----------------------------------------------------------------------------- F. the derivative operator in context
+
+BETA_POOL = ['b2', 'b10', 'B_x', 'c_fix', 'zz', 'Alpha']  # disjoint from NAME_POOL, COL_POOL, RV_POOL
+COL_POOL = ['X', 'Y', 'Z', 'W10', 'W2']
+RV_POOL = ['omega', 'eps_r', 'Aa_rv']
+DET_TYPES = USER + DET_NATIVE
+
+
+def py_dual(t, betas, row, xi, wrt):
+    """independent forward-mode derivative of the integrand: (value, derivative, bound on |value|, bound on |derivative|);
+    the bounds are the same expressions evaluated on absolute values (a forward error bound for any evaluation order)"""
+    k = t['k']
+    if k == 'num':
+        v = float(f"{t['m']}e-{t['e']}")
+        return (-v if t['neg'] else v), 0.0, v, 0.0
+    if k == 'nat':
+        return float(t['v']), 0.0, float(t['v']), 0.0
+    if k == 'beta':
+        on = 1.0 if wrt == ('beta', t['i']) else 0.0
+        return betas[t['i']], on, abs(betas[t['i']]), on
+    if k == 'var':
+        on = 1.0 if wrt == ('var', t['j']) else 0.0
+        return row[t['j']], on, abs(row[t['j']]), on
+    if k == 'draw':
+        return xi[t['n']], 0.0, abs(xi[t['n']]), 0.0
+    if k == 'exp':
+        a, da, ma, mda = py_dual(t['a'], betas, row, xi, wrt)
+        e = math.exp(a)
+        return e, e * da, e * (1 + ma), e * (1 + ma) * mda
+    a, da, ma, mda = py_dual(t['a'], betas, row, xi, wrt)
+    b, db, mb, mdb = py_dual(t['b'], betas, row, xi, wrt)
+    if k == 'mul':
+        return a * b, da * b + a * db, ma * mb, mda * mb + ma * mdb
+    return (a + b, da + db, ma + mb, mda + mdb) if k == 'add' else (a - b, da - db, ma + mb, mda + mdb)
+
+
+def gen_derive2_case(rng):
+    N = rng.randint(1, 4)
+    dbcols = rng.sample(COL_POOL, rng.randint(2, 4))  # order of the columns in the database
+    vnames = rng.sample(dbcols, 2)  # data column at position j of the formula family
+    nb = rng.choice([2, 2, 3])
+    bnames = rng.sample(BETA_POOL, nb)
+    bstatus = [rng.choice([0, 0, 1]) for _ in range(nb)]
+    K = rng.choice([0, 1, 1, 2, 2, 3])
+    names = rng.sample(NAME_POOL, K)
+    types = {n: rng.choice(DET_TYPES) for n in names}
+    tree = gen_tree(rng, rng.randint(1, 4), names, nb, 2)
+    used = tree_draws(tree)
+    for n in names:
+        if n not in used:
+            tree = {'k': rng.choice(['add', 'sub']), 'a': tree, 'b': {'k': 'mul', 'a': {'k': 'draw', 'n': n}, 'b': rng.choice([{'k': 'beta', 'i': rng.randrange(nb)}, {'k': 'var', 'j': rng.randrange(2)}])}}
+    wrt = rng.choice(['beta', 'beta', 'var', 'var', 'var', 'rv'])
+    rv = None
+    if wrt == 'rv' or rng.random() < 0.35:
+        rv = {'name': rng.choice(RV_POOL), 'bi': rng.randrange(nb), 'vj': rng.randrange(2), 'c0': rng.choice([1.0, 0.5, -2.0, 1.5])}
+    idx = rng.randrange(nb if wrt == 'beta' else 2)
+    if wrt == 'beta' and 1 in bstatus and rng.random() < 0.5:
+        idx = bstatus.index(1)  # fixed parameters are numbered after the free ones
+    return {
+        'N': N, 'R': rng.choice([1, 2, 7, 50]), 'dbcols': dbcols, 'vnames': vnames, 'bnames': bnames, 'bstatus': bstatus,
+        'bvals': [rng.randint(-8, 8) / 8.0 for _ in range(nb)], 'types': types, 'tree': tree, 'rv': rv,
+        'rows': [[rng.randint(-8, 8) / 4.0 for _ in dbcols] for _ in range(N)],
+        'wrt': wrt, 'idx': idx, 'form': rng.choice(['derive-of-mc', 'mc-of-derive']) if K else 'plain',
+    }
+
+
+def derive2_objects(case, bvals=None, rows=None):
+    """real objects of a case: database, the argument A (a simulated / integrated quantity) and the formula F containing
+    the derivative operator"""
+    import pandas as pd
+    import biogeme.database as db
+    from biogeme.expressions import Beta, Variable, Numeric, exp, Derive, MonteCarlo, Integrate, RandomVariable
+
+    rows = case['rows'] if rows is None else rows
+    spec = {'bnames': case['bnames'], 'bstatus': case['bstatus'], 'bvals': case['bvals'] if bvals is None else bvals, 'vnames': case['vnames']}
+    d = db.Database('t', pd.DataFrame({c: [float(r[j]) for r in rows] for j, c in enumerate(case['dbcols'])}))
+    d.set_random_number_generators({f'G{g}': (user_gen(g), f'user {g}') for g in range(3)})
+    nb = len(case['bnames'])
+
+    def beta(i):
+        return Beta(spec['bnames'][i], spec['bvals'][i], None, None, spec['bstatus'][i])
+
+    # every parameter exists in the formula: + 0 * (sum of the parameters)
+    zero = beta(0)
+    for i in range(1, nb):
+        zero = zero + beta(i)
+    e = build(case['tree'], case['types'], spec) + 0 * zero
+    name = case['rv']['name'] if case['wrt'] == 'rv' else spec['bnames'][case['idx']] if case['wrt'] == 'beta' else spec['vnames'][case['idx']]
+    integ = om = g = None
+    if case['rv']:
+        rv = case['rv']
+        om = RandomVariable(rv['name'])
+        g = Numeric(rv['c0']) * (exp(-(om * om) / 2) / Numeric(math.sqrt(2 * math.pi))) * exp(beta(rv['bi']) * Variable(spec['vnames'][rv['vj']]) * om)
+        integ = Integrate(g, rv['name'])
+    sim = MonteCarlo(e) if case['types'] else e
+    A = sim + integ if integ is not None else sim
+    if case['wrt'] == 'rv':
+        # int omega * d/d omega [c0 phi(omega) e^{a omega}] d omega  (+ the simulated quantity, unchanged)
+        F = Integrate(om * Derive(g, name), rv['name']) + sim
+    elif case['form'] == 'mc-of-derive':
+        F = MonteCarlo(Derive(e, name))
+        if integ is not None:
+            F = F + Derive(integ, name)
+    else:
+        F = Derive(A, name)
+    return d, A, F, name
+
+
+def check_derive2(ctx, res, case):
+    N, R, types, tree, wrt, idx = case['N'], case['R'], case['types'], case['tree'], case['wrt'], case['idx']
+    where = 'Derive (in context)'
+    iso_f.note(case, where)
+    nb = len(case['bnames'])
+    free = {case['bnames'][i]: case['bvals'][i] for i in range(nb) if case['bstatus'][i] == 0}
+    d, A, F, name = derive2_objects(case)
+    try:
+        vals = [float(v) for v in F.get_value_c(database=d, betas=free, number_of_draws=R, prepare_ids=True)]
+    except Exception as ex:  # noqa: BLE001
+        res.violate(f'Derive raises {type(ex).__name__}: {str(ex)[:150]}', case, core.exc_kind(ex), 'values', where=where)
+        return
+    res.count({'derive2': case}, nontrivial=tree_depth(tree) >= 2)
+    kind = wrt if wrt != 'beta' else 'fixed-beta' if case['bstatus'][idx] else 'free-beta'
+    res.tally(f'derive2:{kind}')
+    res.tally(f'derive2:{case["form"]}:draws={len(types)}' + (':rv' if case['rv'] else ''))
+    # ---- oracle from the statement: the partial derivative of the argument w.r.t. the named literal, the argument
+    # being the mean over the draws (own series) of the integrand + the proved closed form of the Integrate term
+    names_sorted = sorted(types)
+    ser = {n: series_of(types[n], N, R) for n in names_sorted}
+    vrows = [[r[case['dbcols'].index(c)] for c in case['vnames']] for r in case['rows']]  # rows by position of the family
+    draws_of = range(R) if types else [0]
+
+    def duals(n, bvals, row, w):
+        return [py_dual(tree, bvals, row, {nm: ser[nm][n][r] for nm in types}, w) for r in draws_of]
+
+    expected, tol, tree_part = [], [], []
+    for n in range(N):
+        terms = duals(n, case['bvals'], vrows[n], (wrt, idx))
+        pick = (0, 2) if wrt == 'rv' else (1, 3)  # w.r.t. the random variable the simulated quantity is a constant term of F
+        x, bound = math.fsum(t[pick[0]] for t in terms) / len(terms), math.fsum(t[pick[1]] for t in terms) / len(terms)
+        tree_part.append(x)
+        tl = 1e-11 * bound + 1e-13
+        if case['rv']:
+            rv = case['rv']
+            bv, vv = case['bvals'][rv['bi']], vrows[n][rv['vj']]
+            a = bv * vv
+            I = rv['c0'] * math.exp(a * a / 2)  # C10.integral_phi_exp
+            if wrt == 'rv':
+                dI = -I  # C10.integral_poly_phi_exp with c = (0, c0 a, -c0): c0 e^{a^2/2} (a^2 - (1 + a^2))
+            else:
+                dI = I * a * ((vv if (wrt, idx) == ('beta', rv['bi']) else 0.0) + (bv if (wrt, idx) == ('var', rv['vj']) else 0.0))
+            x += dI
+            tl += 1e-6 * max(1.0, abs(I), abs(dI))
+        expected.append(x)
+        tol.append(tl)
+    if len(vals) != N or not all(abs(x - y) <= t for x, y, t in zip(vals, expected, tol)):
+        res.violate(f'Derive(., {name}) = partial derivative of its argument w.r.t. the named {"parameter" if wrt == "beta" else "variable"} '
+                    '(forward-mode derivative of an independent evaluator, mean over the own series; closed form for the Integrate term)',
+                    case, vals, expected, where=where)
+        return
+    # ---- second oracle: central finite differences of the real value of the argument
+    if wrt != 'rv':
+        h = 1e-5
+        fd = []
+        for sgn in (+1, -1):
+            bv, rows2 = list(case['bvals']), [list(r) for r in case['rows']]
+            if wrt == 'beta':
+                bv[idx] += sgn * h
+            else:
+                for r in rows2:
+                    r[case['dbcols'].index(name)] += sgn * h
+            d2, A2, _, _ = derive2_objects(case, bv, rows2)
+            free2 = {case['bnames'][i]: bv[i] for i in range(nb) if case['bstatus'][i] == 0}
+            fd.append([float(v) for v in A2.get_value_c(database=d2, betas=free2, number_of_draws=R, prepare_ids=True)])
+        fdv = [(p - m) / (2 * h) for p, m in zip(*fd)]
+        # truncation (h^2/6 times the third derivative) and rounding (eps |f| / h), bounded through the magnitude of the
+        # argument with the perturbed literal taken >= 1 in absolute value
+        big = []
+        for n in range(N):
+            b1 = [max(1.0, abs(v)) if wrt == 'beta' and i == idx else v for i, v in enumerate(case['bvals'])]
+            r1 = [max(1.0, abs(v)) if wrt == 'var' and j == idx else v for j, v in enumerate(vrows[n])]
+            m = max(t[2] for t in duals(n, b1, r1, None))
+            if case['rv']:
+                a1 = max(1.0, abs(case['bvals'][case['rv']['bi']])) * max(1.0, abs(vrows[n][case['rv']['vj']]))
+                m += abs(case['rv']['c0']) * math.exp(a1 * a1 / 2) * (1 + a1) ** 3
+            big.append(m)
+        if not all(abs(x - y) <= 1e-5 * max(1.0, abs(x), abs(y)) + 1e-7 * m for x, y, m in zip(vals, fdv, big)):
+            res.violate(f'Derive(., {name}) = partial derivative of its argument (central finite differences of the real value of the argument)', case, vals, fdv, where=where)
+            return
+    # ---- correspondence: the index written by Derive.get_signature and the value, vs the model
+    try:
+        F.prepare(d, R)
+        sig_idx = sorted({int(ln.decode().split(',')[-1]) for ln in F.get_signature() if ln.startswith(b'<Derive>')})
+        F.set_id_manager(None)
+    except Exception as ex:  # noqa: BLE001
+        res.violate(f'get_signature raises {type(ex).__name__}: {str(ex)[:150]}', case, core.exc_kind(ex), 'a signature', where=where)
+        return
+    table = [[[ser[nm][n][r] for nm in names_sorted] for r in range(R)] for n in range(N)] if types else []
+    req = {
+        'op': 'derive_lit', 'free': [b for b, st in zip(case['bnames'], case['bstatus']) if st == 0][::-1],
+        'fixed': [b for b, st in zip(case['bnames'], case['bstatus']) if st == 1][::-1], 'rvs': [case['rv']['name']] if case['rv'] else [],
+        'draws': names_sorted[::-1], 'cols': case['dbcols'], 'bnames': case['bnames'], 'vnames': case['vnames'], 'name': name,
+        'eval': wrt != 'rv', 'mc': bool(types), 'R': R, 'e': tree, 'betas': [f2b(v) for v in case['bvals']], 'rows': [[f2b(v) for v in r] for r in vrows],
+        'table': [[[f2b(v) for v in r] for r in m] for m in table],
+    }
+    closed = [x - tp for x, tp in zip(expected, tree_part)]  # the Integrate term (closed form), not in the model's family
+
+    def cb(ans):
+        a = ans[0]
+        if sig_idx != [a.get('index')]:
+            res.diverge(f'index of "{name}" written by Derive.get_signature vs Integrals.literalIndex (free, fixed, random variables, draws, columns)', case, a.get('index'), sig_idx)
+        if wrt != 'rv':
+            mv = [b2f(v) + c for v, c in zip(a.get('values', []), closed)]
+            if len(mv) != len(vals) or not all(abs(x - y) <= t for x, y, t in zip(mv, vals, tol)):
+                res.diverge('Derive in context vs Integrals.deriveNamed (+ closed form of the Integrate term)', case, mv, vals)
+
+    ctx.batch.add_many([req], cb)
+
+
 def tree_has(t, kind):
     if t['k'] == kind:
         return True
@@ -657,6 +1028,26 @@ CORPUS_MC = [
 ]
 
 
+CORPUS_SEED = [
+    # pure simulation, the Monte-Carlo formula next to a closed-form log likelihood, the usual case
+    {'N': 3, 'R': 8, 'seed': 4242, 'types': {'xi2': 'NORMAL', 'a': 'UNIFORMSYM'},
+     'tree': {'k': 'add', 'a': {'k': 'mul', 'a': {'k': 'draw', 'n': 'xi2'}, 'b': {'k': 'var', 'j': 0}}, 'b': {'k': 'mul', 'a': {'k': 'draw', 'n': 'a'}, 'b': {'k': 'beta', 'i': 1}}},
+     'betas': [0.5, -0.25], 'rows': [[1.0, 0.5], [2.0, -1.0], [-0.5, 0.0]], 'via': 'biogeme', 'seed_via': 'kwarg', 'layout': layout, 'll_key': 'log_like', 'between': 17}
+    for layout in ('only', 'next-to-ll', 'is-ll')
+]
+
+_D2_TREE = {'k': 'add', 'a': {'k': 'mul', 'a': {'k': 'mul', 'a': {'k': 'beta', 'i': 0}, 'b': {'k': 'draw', 'n': 'xi2'}}, 'b': {'k': 'var', 'j': 0}},
+            'b': {'k': 'mul', 'a': {'k': 'var', 'j': 1}, 'b': {'k': 'mul', 'a': {'k': 'var', 'j': 1}, 'b': {'k': 'beta', 'i': 1}}}}
+CORPUS_DERIVE2 = [
+    # every group of the numbering non-empty and of a different size: 1 free, 1 fixed, 1 random variable, 2 draws, 3 columns
+    {'N': 2, 'R': 7, 'dbcols': ['Z', 'Y', 'X'], 'vnames': ['X', 'Y'], 'bnames': ['b2', 'c_fix'], 'bstatus': [0, 1], 'bvals': [0.5, -0.25],
+     'types': {'xi2': 'G1', 'a': 'UNIFORM_HALTON3'}, 'rv': {'name': 'omega', 'bi': 0, 'vj': 0, 'c0': 1.0},
+     'tree': {'k': 'sub', 'a': _D2_TREE, 'b': {'k': 'mul', 'a': {'k': 'draw', 'n': 'a'}, 'b': {'k': 'var', 'j': 1}}},
+     'rows': [[3.0, 0.5, 1.0], [4.0, -1.0, 2.0]], 'wrt': wrt, 'idx': idx, 'form': form}
+    for wrt, idx, form in (('var', 0, 'derive-of-mc'), ('var', 1, 'mc-of-derive'), ('beta', 1, 'derive-of-mc'), ('beta', 0, 'mc-of-derive'), ('rv', 0, 'derive-of-mc'))
+]
+
+
 class EnginePoisoned(Exception):
     pass
 
@@ -673,7 +1064,7 @@ def guard(res, stream, fn, *args):
 
 
 def check_impl(ctx) -> Result:
-    res = Result(rule=RULE, tolerance='draw table, refusals, seeds: exact; Monte-Carlo and Derive: rel 1e-11; Integrate vs closed forms: 1e-6; Derive vs finite differences: 1e-5')
+    res = Result(rule=RULE, tolerance='draw table, refusals, seeds: exact; Monte-Carlo and Derive: rel 1e-11; Integrate vs closed forms: 1e-6; Derive vs finite differences: 1e-5; Derive in context vs forward-mode derivative: 1e-11 x forward error bound (+ 1e-6 for an Integrate term), vs finite differences 1e-5 + 1e-7 x magnitude bound')
     rng = ctx.rng
     try:
         for _ in range(ctx.n(150, 5000)):
@@ -696,12 +1087,28 @@ def check_impl(ctx) -> Result:
             guard(res, 'MonteCarlo', check_mc, ctx, res, gen_mc_case(rng))
             if len(res.violations) > 10:
                 break
-        for _ in range(ctx.n(8, 150)):
-            guard(res, 'BIOGEME seed', check_seed, ctx, res, rng)
+        for c in CORPUS_SEED:
+            guard(res, 'BIOGEME seed', check_seed, ctx, res, c)
+            res.tally('corpus')
+        base = len(res.violations)
+        for _ in range(ctx.n(50, 600)):
+            guard(res, 'BIOGEME seed', check_seed, ctx, res, gen_seed_case(rng))
+            if len(res.violations) - base > 10:
+                break
+        for _ in range(ctx.n(12, 200)):
+            guard(res, 'BIOGEME seed (state)', check_seed_state, ctx, res, rng)
         for _ in range(ctx.n(80, 2000)):
             guard(res, 'Integrate', check_integrate, ctx, res, rng)
         for _ in range(ctx.n(120, 4000)):
             guard(res, 'Derive', check_derive, ctx, res, rng)
+        for c in CORPUS_DERIVE2:
+            guard(res, 'Derive (in context)', check_derive2, ctx, res, c)
+            res.tally('corpus')
+        base = len(res.violations)
+        for _ in range(ctx.n(300, 5000)):
+            guard(res, 'Derive (in context)', check_derive2, ctx, res, gen_derive2_case(rng))
+            if len(res.violations) - base > 10:
+                break
     except EnginePoisoned:
         res.notes.append('run stopped after an engine exception (the engine keeps it for the rest of the process)')
     ctx.batch.flush()
@@ -726,9 +1133,11 @@ def search(ctx, res, broken):
         r2 = Result()
         check_mc(c2, r2, gen_mc_case(rng))
         check_table(c2, r2, rng)
+        check_derive2(c2, r2, gen_derive2_case(rng))
         if i % 4 == 0:
             check_integrate(c2, r2, rng)
             check_derive(c2, r2, rng)
+            check_seed(c2, r2, gen_seed_case(rng))
         if r2.violations:
             res.violations.extend(r2.violations[:1])
             return
@@ -739,7 +1148,11 @@ def replay_impl(ctx, obj):
     out = {'replayed': obj.get('what')}
     c2 = _Ctx2(core.rng_for('C10-replay', 0))
     r = Result()
-    if 'tree' in case and 'types' in case:
+    if 'dbcols' in case and 'tree' in case:
+        check_derive2(c2, r, case)
+    elif 'between' in case and 'tree' in case:
+        check_seed(c2, r, case)
+    elif 'tree' in case and 'types' in case:
         check_mc(c2, r, case)
     else:
         # the other streams draw their inputs from the generator: re-run a stretch of them
@@ -748,7 +1161,8 @@ def replay_impl(ctx, obj):
             check_refusals(c2, r, c2.rng)
             check_integrate(c2, r, c2.rng)
             check_derive(c2, r, c2.rng)
-        check_seed(c2, r, c2.rng)
+        for _ in range(6):
+            check_seed(c2, r, gen_seed_case(c2.rng))
     out.update({'property_fails': bool(r.violations), 'violations': r.violations[:3]})
     return out
 
